@@ -50,6 +50,44 @@ func (s *Script) Str() string {
 	return gen.SafeString(s.R)
 }
 
+type tplNamed string
+type tplStringer struct{ v string }
+
+func (t tplStringer) String() string { return t.v }
+
+type tplErr struct{ v string }
+
+func (t tplErr) Error() string { return t.v }
+
+// TemplateValue draws a template variable value of any dynamic type a caller may legitimately pass
+// (SetVariable takes interface{}): the text that ends up in the document is the same hostile/safe corpus string.
+func (s *Script) TemplateValue() interface{} {
+	v := s.Str()
+	switch s.R.Intn(12) {
+	case 0:
+		return tplNamed(v)
+	case 1:
+		return tplStringer{v}
+	case 2:
+		return []string{v, s.Str()}
+	case 3:
+		return tplErr{v}
+	case 4:
+		return []byte(v)
+	case 5:
+		return map[string]string{v: v}
+	case 6:
+		return &v
+	case 7:
+		return []interface{}{v, 1, nil}
+	case 8:
+		return s.R.Intn(1000)
+	case 9:
+		return nil
+	}
+	return v
+}
+
 func (s *Script) note(name string) {
 	s.Log = append(s.Log, name)
 	s.Kinds[name]++
@@ -748,7 +786,7 @@ func init() {
 			}
 			data := document.NewTemplateData()
 			for i := 0; i < 4; i++ {
-				data.SetVariable([]string{"x", "name", "title", "v1", "date"}[s.R.Intn(5)], s.Str())
+				data.SetVariable([]string{"x", "name", "title", "v1", "date"}[s.R.Intn(5)], s.TemplateValue())
 			}
 			data.SetCondition("a", s.R.Bool())
 			data.SetList("xs", []interface{}{s.Str(), map[string]interface{}{"name": s.Str()}})
